@@ -4,7 +4,7 @@ Properties without an entry in claims.json are listed under not_applicable with 
 unclaimed.json (or a default)."""
 import json, os
 root = os.path.dirname(os.path.abspath(__file__))
-claims = json.load(open(os.path.join(root, "claims.json")))
+claims = {f[:-5]: json.load(open(os.path.join(root, "claims", f))) for f in sorted(os.listdir(os.path.join(root, "claims"))) if f.endswith(".json")}
 unclaimed = {}
 p = os.path.join(root, "unclaimed.json")
 if os.path.exists(p):
